@@ -23,17 +23,17 @@ Proof. exact ring_structure. Qed.
 Print Assumptions C06_ring_stores_every_vertex_once.
 
 (* the structural facts the theorems below rest on, read off the source on every run: copy deep-copies in both branches
-   and also the connectivity, merge / from_arrays / prepare() / the five appending exporters copy each vector, translate
+   and also the connectivity (a new object whose back-reference is the copy), merge / from_arrays / prepare() / the five appending exporters copy each vector, translate
    works on a private copy of its parameter *)
 Theorem C06_structure_of_the_code :
   (forall attr : bool, (if attr then copy_mode_with_attributes else copy_mode_data_only) = Copy)
-  /\ copy_connectivity_mode = Copy
+  /\ copy_connectivity_mode = Copy /\ copy_connectivity_backref = BackToCopy
   /\ eff merge_vertex_mode = Copy /\ eff from_arrays_mode = Copy /\ prepare_vertex_mode = Copy
   /\ (forall p, (0 <= p <= 4)%Z -> append_mode p = Copy)
   /\ translate_param_by_value = true.
 Proof.
-  exact (conj copy_is_deep (conj copy_connectivity_is_deep (conj merge_copies (conj from_arrays_copies
-        (conj prepare_copies (conj appenders_copy translate_by_value)))))).
+  exact (conj copy_is_deep (conj copy_connectivity_is_deep (conj copy_connectivity_answers_from_the_copy (conj merge_copies (conj from_arrays_copies
+        (conj prepare_copies (conj appenders_copy translate_by_value))))))).
 Qed.
 Print Assumptions C06_structure_of_the_code.
 
